@@ -176,10 +176,27 @@ def run(ctx):
                 base = spaced_rule(rnd, spec)
                 kind, text = M.mutate_rule(rnd, base, names)
                 try:
-                    fl.Rule.create(text, engine)
+                    made = fl.Rule.create(text, engine)
                     ctx.hit("mutant accepted")
+                    ctx.evaluated()
+                    if not made.is_loaded():
+                        ctx.violation("a rule created for an engine is returned unloaded without an error", {"text": text}, "loaded or an error", "unloaded")
                 except Exception:
                     ctx.hit("mutant rejected")
+                if k % 6 == 0:
+                    # the same texts for engines that cannot hold them (no components at all; no output variables): nothing to
+                    # load the rule with, so it is refused - never handed back as if all were well
+                    for what, other in (("an engine without components", fl.Engine("empty")), ("an engine without output variables", fl.Engine("inputs-only", input_variables=[fl.InputVariable(v.name, terms=list(v.terms)) for v in engine.input_variables]))):
+                        for t in (base, text):
+                            ctx.evaluated()
+                            try:
+                                made = fl.Rule.create(t, other)
+                                if not made.is_loaded():
+                                    ctx.violation("a rule created for an engine is returned unloaded without an error", {"text": t, "engine": what}, "an error", "unloaded")
+                                else:
+                                    ctx.violation(f"a rule over variables that do not exist is accepted ({what})", {"text": t}, "an error", "loaded")
+                            except (SyntaxError, ValueError, LookupError, RuntimeError):
+                                ctx.hit("refused for " + what)
                 if k % 3 == 0:  # an already loaded rule object is given the mutated text and loaded again (stale state must not survive)
                     try:
                         again = fl.Rule.create(base, engine)
@@ -249,7 +266,7 @@ def run(ctx):
                 ctx.sample("injected", {"class": cls, "valid": base, "broken": bad})
         probe.report(ctx)
         reach.report(ctx)
-    ctx.require("hook:Rule.parse", "hook:Rule.load", "hook:Antecedent.load", "hook:Consequent.load", "hook:RuleBlock.load_rules", "hook:FllImporter.from_string", "mutant accepted", "mutant rejected", "document mutant accepted", "document mutant rejected", "accepted rule evaluated", "accepted document exported", "event:reload of a loaded rule")
+    ctx.require("hook:Rule.parse", "hook:Rule.load", "hook:Antecedent.load", "hook:Consequent.load", "hook:RuleBlock.load_rules", "hook:FllImporter.from_string", "mutant accepted", "mutant rejected", "document mutant accepted", "document mutant rejected", "accepted rule evaluated", "accepted document exported", "event:reload of a loaded rule", "refused for an engine without components", "refused for an engine without output variables")
     if ctx.nshards == 1:
         for cls in M.ERROR_CLASSES:
             ctx.require(f"injected:{cls}")
